@@ -17,7 +17,7 @@ META = {
 
 
 def obligations(tier, seed):
-    t = 400 if tier == 'quick' else 2400
+    t = 240 if tier == 'quick' else 2400
     def fix(lo, width, v):
         return ['b%d == %s' % (lo + i, bool((v >> i) & 1)) for i in range(width)]
     nested = []
